@@ -11,10 +11,11 @@ CONSTANTS
  BranchNames <- MCBranchNames
  Msgs <- MCMsgs
  Subject <- MCSubject
- MaxCommits = 3
+ MaxCommits = 4
  FreshContent = ""
  Want = {"ALL"}
  ArgLists <- MCArgLists
+ InitEvents <- MCInitEvents
  Cmds <- MCCmds
 CONSTRAINT MCLevel
 PROPERTY StepOK
